@@ -148,6 +148,17 @@ pub fn run_all(ctx: &mut Ctx, stream: &str) {
 		RangeInclusive<Compact<u32>>, Range<Option<NonZeroU16>>, Range<(u8, u32)>, Range<Duration>, RangeInclusive<Duration>, [Range<Duration>; 2], [RangeInclusive<(u8, u32)>; 3],
 		Vec<Range<Duration>>, Range<bool>, [Duration; 3], [Range<u16>; 2],
 		IdxEnum, [IdxEnum; 3], Vec<IdxEnum>,
+		// round 5: primitive tuples without padding whose memory order differs from declaration order;
+		// nested-niche elements (1 byte in memory, up to 3 on the wire) in arrays; maps of bare primitives
+		// of different widths; fixed-size compound elements of 16 bytes and more; zero-length arrays of
+		// fixed-size elements; holders of non-constant-length values; decode_into of compact integers
+		(u8, u16, u8), (u16, u32, u16), (u8, u8, u16, u32), (u32, u64, u32), (u8, u16, u8, u32), (u16, u8, u8, u32), (i8, i16, i8), (u64, u128, u64),
+		[Option<Option<bool>>; 24], [Option<IdxEnum>; 30], [Option<Option<bool>>; 3], [Result<Option<bool>, ()>; 25],
+		BTreeMap<u8, u32>, BTreeMap<u32, u64>, BTreeMap<u64, u8>, BTreeMap<u16, u128>, BTreeMap<i8, i64>,
+		Vec<[u32; 4]>, Vec<[u64; 2]>, VecDeque<[u16; 8]>, Vec<[[u16; 4]; 2]>, BinaryHeap<[u64; 2]>, Vec<[bool; 16]>, Vec<[u128; 1]>,
+		Arc<Option<u32>>, Arc<Compact<u64>>, Arc<MelEnum>, [Arc<Option<u8>>; 2], (u8, Box<Arc<Compact<u16>>>), Range<Arc<Option<u8>>>, Rc<Option<u16>>, Box<Result<u8, u64>>,
+		[Compact<u128>; 2], Box<Compact<u128>>, [Compact<u64>; 2], Rc<Compact<u32>>, [Compact<u16>; 3], Arc<Compact<u8>>, Box<[Compact<u128>; 1]>,
+		TailEmpty, Box<TailEmpty>, TailEmptyE, Vec<TailEmptyE>, (u8, TailEmpty),
 		// user-defined wrappers relying on the provided `decode_wrapped` (the model's `wrap`)
 		UserWrap<u32>, UserWrap<Vec<u8>>, Vec<UserWrap<u16>>, UserWrap<UserWrap<Box<u8>>>, Box<UserWrap<()>>, UNode, Option<SharedNode>, [UserWrap<u8>; 3],
 		(UserWrap<String>, u8), Vec<UNode>,
@@ -191,6 +202,7 @@ pub fn run_all(ctx: &mut Ctx, stream: &str) {
 		run_random(ctx, stream, f);
 	}
 	zerow!(ctx, stream, f; Box<Box<()>>, Rc<Box<Arc<()>>>, Vec<Box<Box<()>>>, (Box<Box<()>>, Box<()>),);
+	zerow!(ctx, stream, f; Vec<[u32; 0]>, Vec<[bool; 0]>, Vec<[[u16; 0]; 2]>, VecDeque<[u64; 0]>);
 	zerow!(ctx, stream, f; Vec<()>, VecDeque<()>, LinkedList<()>, Vec<UnitStruct>, Vec<PhantomData<u8>>, BTreeSet<()>,
 		Option<Vec<()>>, [(); 5], [UnitStruct; 3],
 		Vec<Box<()>>, Vec<AllSkipped>, VecDeque<Rc<()>>, (Vec<Box<()>>, u8, bool), BinaryHeap<Box<()>>, Vec<Arc<[u32; 0]>>,
